@@ -2029,3 +2029,197 @@ func RAnySub(c *core.Ctx) {
 		c.Anchor("calls of subtraction-propagating CharSet methods")
 	}
 }
+
+// ---------------------------------------------------------------------------
+// R-RANGEBYTE: in `for i, r := range s` over a string, i is a BYTE offset and
+// r may be several bytes wide.  `i + 1` as "the position after r" is right
+// only for one-byte runes: it has to stand under a test that r is ASCII
+// (r < utf8.RuneSelf), or be written with the rune's width.  Escape copying
+// `input[start:i]` and resuming at `start = i + 1` emits the continuation
+// bytes of every escaped multi-byte rune.
+// ---------------------------------------------------------------------------
+
+func RRangeByte(c *core.Ctx) {
+	c.Rule("R-RANGEBYTE", "inside `for i, r := range <string>` the byte offset i is advanced past r by a constant (`i + 1`) only where r is known to be a one-byte rune (a dominating r < utf8.RuneSelf / r <= 0x7f test); otherwise the rune's width has to be used", 0)
+	p := c.P
+	n, examined := 0, 0
+	for _, pk := range p.ModulePkgs() {
+		info := pk.TypesInfo
+		for _, fd := range p.FuncDecls(pk) {
+			if fd.Body == nil || p.IsTestFile(fd.Pos()) {
+				continue
+			}
+			name := core.DeclName(pk, fd)
+			var g *core.Graph
+			ast.Inspect(fd.Body, func(x ast.Node) bool {
+				rs, ok := x.(*ast.RangeStmt)
+				if !ok || rs.Key == nil || rs.Value == nil {
+					return true
+				}
+				bt, ok := info.TypeOf(rs.X).Underlying().(*types.Basic)
+				if !ok || bt.Info()&types.IsString == 0 {
+					return true
+				}
+				kid, ok1 := rs.Key.(*ast.Ident)
+				vid, ok2 := rs.Value.(*ast.Ident)
+				if !ok1 || !ok2 || kid.Name == "_" || vid.Name == "_" {
+					return true
+				}
+				examined++
+				ki, vi := info.ObjectOf(kid), info.ObjectOf(vid)
+				ast.Inspect(rs.Body, func(y ast.Node) bool {
+					be, ok := y.(*ast.BinaryExpr)
+					if !ok || be.Op != token.ADD {
+						return true
+					}
+					id, ok := ast.Unparen(be.X).(*ast.Ident)
+					if !ok || info.ObjectOf(id) != ki {
+						return true
+					}
+					if k, ok := core.ConstInt(info, be.Y); !ok || k < 1 || k > 4 {
+						return true
+					}
+					// only where the sum is a position in the string: a slice bound of it, or kept for later
+					if g == nil {
+						g = core.NewGraph(info, fd.Body)
+					}
+					ascii := false
+					check := func(at ast.Node) {
+						b, _ := g.BlockOf(at)
+						if b == nil {
+							return
+						}
+						for _, f := range g.FactsAt(b) {
+							for _, cj := range conjunctsOrNegDisjuncts(f) {
+								cmp, ok := ast.Unparen(cj.e).(*ast.BinaryExpr)
+								if !ok {
+									continue
+								}
+								rid, ok := ast.Unparen(cmp.X).(*ast.Ident)
+								if !ok || info.ObjectOf(rid) != vi {
+									continue
+								}
+								k, ok := core.ConstInt(info, cmp.Y)
+								if !ok {
+									continue
+								}
+								switch {
+								case cj.val && cmp.Op == token.LSS && k <= 0x80, cj.val && cmp.Op == token.LEQ && k <= 0x7f,
+									!cj.val && cmp.Op == token.GEQ && k <= 0x80, !cj.val && cmp.Op == token.GTR && k <= 0x7f:
+									ascii = true
+								}
+							}
+						}
+					}
+					check(be)
+					if st := enclosingStmt(fd.Body, be); st != nil && !ascii {
+						check(st)
+					}
+					n++
+					c.Visit(name)
+					c.Check(ascii, fmt.Sprintf("%s / `%s` in a range over a string is under a one-byte test of %s #%d", name, types.ExprString(be), vid.Name, n), be.Pos(),
+						"%s is the byte offset of the rune %s, which may be up to four bytes wide: `%s` points into the middle of a multi-byte rune", kid.Name, vid.Name, types.ExprString(be))
+					return true
+				})
+				return true
+			})
+		}
+	}
+	c.Note("R-RANGEBYTE: %d range loops over strings with index and value examined", examined)
+	if n == 0 {
+		c.OK("module / no constant step past a rune in a range over a string", token.NoPos, "%d `for i, r := range <string>` loops examined; none computes i + constant", examined)
+	}
+}
+
+// ---------------------------------------------------------------------------
+// R-NOALIAS: no exported method of *Regexp hands out a slice or map that IS
+// part of the compiled object.  The caller may sort, filter or overwrite what
+// it gets (names[:0] filtering is idiomatic); if that is re.capslist itself,
+// every later GroupNameFromNumber / Group.Name / GetGroupNames follows the
+// mutation while the name->number map does not, and concurrent users race.
+// ---------------------------------------------------------------------------
+
+func RNoAlias(c *core.Ctx) {
+	c.Rule("R-NOALIAS", "an exported method of *Regexp that returns a slice or a map returns a fresh one: no returned value is a field of the receiver (or of something reached from it), nor a re-slice of one", 2)
+	p := c.P
+	n := 0
+	var rootedAt func(v ssa.Value, recv ssa.Value, depth int) bool
+	rootedAt = func(v ssa.Value, recv ssa.Value, depth int) bool {
+		if depth > 8 || v == nil {
+			return false
+		}
+		if v == recv {
+			return true
+		}
+		switch x := v.(type) {
+		case *ssa.UnOp:
+			if x.Op == token.MUL {
+				return rootedAt(x.X, recv, depth+1)
+			}
+		case *ssa.FieldAddr:
+			return rootedAt(x.X, recv, depth+1)
+		case *ssa.Field:
+			return rootedAt(x.X, recv, depth+1)
+		case *ssa.IndexAddr:
+			return rootedAt(x.X, recv, depth+1)
+		case *ssa.Slice:
+			return rootedAt(x.X, recv, depth+1)
+		case *ssa.Phi:
+			for _, e := range x.Edges {
+				if rootedAt(e, recv, depth+1) {
+					return true
+				}
+			}
+		case *ssa.ChangeType:
+			return rootedAt(x.X, recv, depth+1)
+		case *ssa.Lookup:
+			return rootedAt(x.X, recv, depth+1)
+		}
+		return false
+	}
+	for _, fn := range p.ModuleFuncs() {
+		if core.FnPkgPath(fn) != core.PkgRoot || fn.Signature.Recv() == nil || fn.Object() == nil || !fn.Object().Exported() || len(fn.Params) == 0 {
+			continue
+		}
+		if _, nm := core.NamedOf(fn.Signature.Recv().Type()); nm != "Regexp" {
+			continue
+		}
+		res := fn.Signature.Results()
+		var idx []int
+		for i := 0; i < res.Len(); i++ {
+			switch res.At(i).Type().Underlying().(type) {
+			case *types.Slice, *types.Map:
+				idx = append(idx, i)
+			}
+		}
+		if len(idx) == 0 {
+			continue
+		}
+		name := core.SSAName(fn)
+		c.Visit(name)
+		for _, i := range idx {
+			n++
+			var bad ssa.Instruction
+			for _, b := range fn.Blocks {
+				ret, ok := b.Instrs[len(b.Instrs)-1].(*ssa.Return)
+				if !ok || i >= len(ret.Results) {
+					continue
+				}
+				for _, l := range append(leaves(ret.Results[i]), ret.Results[i]) {
+					if rootedAt(l, fn.Params[0], 0) {
+						bad = ret
+					}
+				}
+			}
+			key := fmt.Sprintf("%s / result #%d is not storage of the compiled Regexp", name, i)
+			if bad != nil {
+				c.Bad(key, bad.Pos(), "the returned %s is (a slice of) a field reached from the receiver: a caller that sorts, filters in place or overwrites it changes the compiled expression for everyone", res.At(i).Type())
+			} else {
+				c.OK(key, fn.Pos(), "fresh value on every return")
+			}
+		}
+	}
+	if n == 0 {
+		c.Anchor("exported *Regexp methods returning slices or maps")
+	}
+}
